@@ -203,8 +203,7 @@ DoClaim(s, e) ==
       IN
       IF ~c.transfer THEN
         IF c.to \in s.blocked \/ ~CanPay(s.bal, MOD, c.amt) THEN FailW(s, "escrow_short")
-        ELSE [Done(closed([s EXCEPT !.bal = Move(s.bal, MOD, c.to, c.amt)]))
-                EXCEPT !.why = IF c.to = MOD THEN "to_escrow" ELSE ""]
+        ELSE Done(closed([s EXCEPT !.bal = Move(s.bal, MOD, c.to, c.amt)]))
       ELSE
         LET d == OnlyDenom(c.amt)
             a == c.amt[d] IN
@@ -346,10 +345,14 @@ ParamsSame(s, t, d) ==
 (*   minted/burned[d]  cumulative bank-supply increase / decrease          *)
 (*   epoch       number of successful UpdateParams                         *)
 (*   windowSum[d]  incoming claims completed since the last seen reset     *)
+(*   stranded[d]   coins left in escrow by successful claims of ordinary   *)
+(*                 contracts whose recipient is the module account itself  *)
+(*                 (known finding H1 / F28: the "payment" is escrow ->     *)
+(*                 escrow); only used by the _ModH1 clause variants         *)
 (***************************************************************************)
 GhostInit == [out |-> EmptyF, done |-> EmptyF, doneAt |-> EmptyF,
               escIn |-> EmptyF, escOut |-> EmptyF, minted |-> EmptyF, burned |-> EmptyF,
-              epoch |-> 0, windowSum |-> EmptyF]
+              epoch |-> 0, windowSum |-> EmptyF, stranded |-> EmptyF]
 
 GhostStep(g, s, e, t) ==
   LET old(f, k, dflt) == IF k \in DOMAIN f THEN f[k] ELSE dflt
@@ -379,6 +382,11 @@ GhostStep(g, s, e, t) ==
    minted |-> [d \in DenomsOf(t) |-> old(g.minted, d, 0) + (IF dS(d) > 0 THEN dS(d) ELSE 0)],
    burned |-> [d \in DenomsOf(t) |-> old(g.burned, d, 0) + (IF dS(d) < 0 THEN 0 - dS(d) ELSE 0)],
    epoch |-> g.epoch + (IF e.name = "UpdateParams" /\ e.ok THEN 1 ELSE 0),
+   stranded |-> [d \in DenomsOf(t) |->
+                   old(g.stranded, d, 0)
+                   + (IF e.name = "Claim" /\ e.ok /\ e.id \in Ids(s)
+                         /\ ~s.htlc[e.id].transfer /\ s.htlc[e.id].to = MOD
+                      THEN AmtOf(s.htlc[e.id], d) ELSE 0)],
    windowSum |-> [d \in DOMAIN t.sup |->
                     IF e.name = "UpdateParams" /\ e.ok /\ ~ParamsSame(s, t, d)
                       THEN t.sup[d].tl                       \* re-based with the new parameters
@@ -465,10 +473,12 @@ C03_RefundAtExpiry(s, e, t) ==
        /\ Frame(s, t, delta, zero)
   ELSE R = {}
 
+NoStranded(d) == 0
+
 (* C03: one outcome per contract, matching its state; the escrow received
    every escrowed contract's amount once (from the sender, at creation) and
    released it once (when the contract closed) *)
-C03_ExactlyOnce(s, e, t, g) ==
+ExactlyOnceX(s, e, t, g, str(_)) ==
   /\ \A i \in Ids(t) :
        LET o == Get(g.out, i, "none") IN
        /\ o # "twice"
@@ -479,7 +489,7 @@ C03_ExactlyOnce(s, e, t, g) ==
        LET held(c) == Escrowed(c)
            gone(c) == Escrowed(c) /\ c.state # "open" IN
        /\ Get(g.escIn, d, 0) = SumAmt(t, held, d)
-       /\ Get(g.escOut, d, 0) = SumAmt(t, gone, d)
+       /\ Get(g.escOut, d, 0) + str(d) = SumAmt(t, gone, d)
   /\ (e.name = "Create" /\ e.ok) =>
        /\ e.id \in CreatedIn(s, t)
        /\ LET c == t.htlc[e.id]
@@ -492,11 +502,19 @@ C03_ExactlyOnce(s, e, t, g) ==
   /\ (e.name \in {"UpdateParams", "EndBlock"}) =>
        (t.bal = s.bal /\ t.supply = s.supply /\ t.htlc = s.htlc)
 
+C03_ExactlyOnce(s, e, t, g) == ExactlyOnceX(s, e, t, g, NoStranded)
+(* the same modulo known finding H1 (F28): what successful claims of contracts
+   payable to the module account left behind counts as released *)
+C03_ExactlyOnce_ModH1(s, e, t, g) ==
+  LET str(d) == Get(g.stranded, d, 0) IN ExactlyOnceX(s, e, t, g, str)
+
 (* C04: escrow = open ordinary contracts + open outgoing transfers *)
-C04_Escrow(t) ==
+EscrowX(t, str(_)) ==
   \A d \in DenomsOf(t) :
     LET P(c) == c.state = "open" /\ Escrowed(c) IN
-    t.bal[MOD][d] = SumAmt(t, P, d)
+    t.bal[MOD][d] - str(d) = SumAmt(t, P, d)
+C04_Escrow(t) == EscrowX(t, NoStranded)
+C04_Escrow_ModH1(t, g) == LET str(d) == Get(g.stranded, d, 0) IN EscrowX(t, str)
 
 (* C04: recorded incoming / outgoing = sums over open transfers *)
 C04_InOut(t) ==
@@ -622,6 +640,8 @@ TplBadTs   == TP("c12", "dep", "u1", ("htltone" :> 1), "s9", 0, 0, TRUE)     \* 
 TplNoDep   == TP("c13", "u1", "u2", ("htltone" :> 1), "s9", T0, T0, TRUE)    \* deputy not involved
 TplPlainAsset == TP("c14", "u1", "u2", ("htltone" :> 1), "s2", T0, T0, FALSE) \* ordinary contract in an asset denom
 
+TplToMod   == TP("c15", "u2", MOD, ("aaa" :> 1) @@ ("bbb" :> 2), "s2", T0, T0, FALSE)   \* H1: recipient = escrow
+TemplatesH1 == {TplMulti, TplSelf, TplToMod}
 TemplatesPlain == {TplMulti, TplSelf, TplOtherTs, TplSame}
 TemplatesPlainBig == {TplMulti, TplSelf, TplOtherTs, TplSame, TplBlocked}
 TemplatesOneBig == {TplIn1, TplIn1b, TplOut1, TplPlainAsset, TplBadTs, TplNoDep}
@@ -707,6 +727,8 @@ Act_C03_ExactlyOnce == [][C03_ExactlyOnce(st, ev', st', gh')]_vars
    VIEW (which drops the ghosts) TLC evaluates an invariant only on the first
    path that reaches a state, an action property on every transition *)
 Act_C04_Current == [][C04_Current(st', gh')]_vars
+Inv_C04_Escrow_ModH1 == C04_Escrow_ModH1(st, gh)
+Act_C03_ExactlyOnce_ModH1 == [][C03_ExactlyOnce_ModH1(st, ev', st', gh')]_vars
 Act_C04_Limit == [][C04_Limit(st, st', gh')]_vars
 Act_C04_Window == [][C04_Window(st, ev', st')]_vars
 Act_C13_OnceOnTime == [][C13_OnceOnTime(st, ev', st', gh')]_vars
